@@ -233,7 +233,7 @@ Lemma shiftr1 x : Z.shiftr x 1 = x / 2.
 Proof. rewrite Z.shiftr_div_pow2 by lia. reflexivity. Qed.
 
 Theorem oneline_centred t W H s b i :
-  0 <= W -> 0 <= H -> 0 <= b -> x_inv t = false -> tile t W H s b = Ok i ->
+  0 <= W -> 0 <= H -> 0 <= b -> x_inv t = false -> tile_filled t W H s b = Ok i ->
   oneline_ok t W H s b (idata i) (str_width (it i) (x_title t)) (line_height (it i)) (tsh (it i)) = true.
 Proof.
   intros HW HH Hb Hinv Ht.
@@ -308,7 +308,7 @@ Proof.
 Qed.
 
 Theorem twoline_centred t W H s b i :
-  0 <= W -> 0 <= H -> 0 <= b -> x_inv t = false -> tile t W H s b = Ok i ->
+  0 <= W -> 0 <= H -> 0 <= b -> x_inv t = false -> tile_filled t W H s b = Ok i ->
   twoline_ok t W H s b (idata i) (str_width (it i) (x_l1 t)) (str_width (it i) (x_l2 t)) (line_height (it i)) (tsh (it i)) = true.
 Proof.
   intros HW HH Hb Hinv Ht.
